@@ -21,6 +21,41 @@ CHECKS = {
              "object exists for the Python implementation, but every disjunct and container level is exercised many times.",
         note="Trusted: vf/refmodel.py (reference semantics from the statement and docs), the fixed step library, Hypothesis. "
              "Not covered: hooks raising KeyboardInterrupt/SystemExit; user code that mutates the model."),
+    "C02": dict(
+        level="exploration", design="DESIGN.md 5/C02",
+        technique="property-based testing: exhaustive enumeration of all outcome sequences up to length 4 x flags + random longer "
+                  "sequences / programs (Hypothesis), real runner vs. reference interpreter (call log, per-step status)",
+        text="Every outcome sequence over the 8 outcomes up to length 4 (x @wip x dry-run x sync/async, spread over 0-2 inherited "
+             "background levels, plain scenario or outline row) is executed by the real runner (37k cases), longer random sequences, "
+             "continue_after_failed_step and repeated runs of the same model objects are sampled; the step-function call log and every "
+             "step status are compared with the reference interpreter. Exhaustive below the bound, sampled above: exploration.",
+        note="Trusted: vf/refmodel.py, the fixed step library. Dry-run status of defined steps only required to be of untested class."),
+    "C03": dict(
+        level="exploration", design="DESIGN.md 5/C03",
+        technique="property-based testing: relational oracle over actual child statuses on generated runs, complete enumeration of "
+                  "the Status enum and of all child-status tuples <= 4 on real model objects, re-run / auto-retry histories",
+        text="The documented roll-up table is encoded as a relation (set of admissible statuses given the children's statuses, own hook "
+             "or cleanup failure) and checked on every scenario/outline/rule/feature of thousands of generated runs (incl. --stop, abort, "
+             "hook faults, raising cleanups, dry-run), on ALL child-status tuples up to length 4 set on real model objects (22k, complete), "
+             "on the complete Status enum (classification) and on re-run histories compared with a fresh model.",
+        note="Trusted: the relation in vf/props/c03.py (from the statement + docs/appendix.status.rst). Open: error vs failed precedence. "
+             "Known findings F2, F25 (documented behave behaviour that contradicts the literal statement) are reported, not suppressed by loosening."),
+    "C09": dict(
+        level="exploration", design="DESIGN.md 5/C09",
+        technique="property-based testing: generated tagged feature trees + tag expressions (both dialects) run by the real runner; "
+                  "own tag-expression evaluator over own+inherited tags as oracle",
+        text="Random trees with tags on every level (feature, rule, scenario, outline with <col> tags, examples) and random v1/v2 "
+             "expressions with negation and wildcards are run; the set of executed scenarios (step calls, scenario hooks) and the "
+             "skipped status of everything else is compared with an own evaluation of the expression over inherited tags.",
+        note="Trusted: vf/tagref.py evaluator, vf/refmodel.py selection. Open: hooks of containers entered only by own tags."),
+    "C12": dict(
+        level="fault_enumeration", design="DESIGN.md 5/C12",
+        technique="fault injection enumeration: every hook call of the fault-free run (and all pairs for short logs) raises; oracle = "
+                  "predicted hook log + independent nesting-grammar recogniser + containment vs. the fault-free baseline",
+        text="For each generated program the fault-free hook log H is recorded and EVERY index of H is used as injection point "
+             "(Exception / AssertionError), plus all pairs when |H| <= 14: ~13k (program, fault) cases per quick run. Checked: nothing "
+             "escapes run(), verdict failed, exact hook log and grammar, hook-error attribution, body suppression, containment.",
+        note="Trusted: vf/refmodel.py hook skeleton, recogniser in vf/props/c12.py. Faults are Exception/AssertionError only."),
 }
 
 PENDING_REASON = "not yet claimed in this revision: the check for this property is still under construction (see DESIGN.md 5)"
